@@ -882,6 +882,7 @@ static void janet_thread_chan_cb(JanetEVGenericMessage msg) {
     JanetChannel *channel = (JanetChannel *) msg.argp;
     Janet x = msg.argj;
     janet_chan_lock(channel);
+    JANET_VERIF_POINT(janet_chan_is_threaded(channel) ? 1 : 0, &channel->lock);
     if (fiber->sched_id == sched_id) {
         if (mode == JANET_CP_MODE_CHOICE_READ) {
             janet_assert(!janet_chan_unpack(channel, &x, 0), "packing error");
@@ -935,6 +936,7 @@ static void janet_thread_chan_cb(JanetEVGenericMessage msg) {
 static int janet_channel_push_with_lock(JanetChannel *channel, Janet x, int mode) {
     JanetChannelPending reader;
     int is_empty;
+    JANET_VERIF_POINT(janet_chan_is_threaded(channel) ? 1 : 0, &channel->lock);
     if (janet_chan_pack(channel, &x)) {
         janet_chan_unlock(channel);
         janet_panicf("failed to pack value for channel: %v", x);
@@ -952,6 +954,7 @@ static int janet_channel_push_with_lock(JanetChannel *channel, Janet x, int mode
             is_empty = janet_q_pop(&channel->read_pending, &reader, sizeof(reader));
         } while (!is_empty && (reader.sched_id != reader.fiber->sched_id));
     }
+    JANET_VERIF_POINT(is_threaded ? 1 : 0, &channel->lock);
     if (is_empty) {
         /* No pending reader */
         if (janet_q_push(&channel->items, &x, sizeof(Janet))) {
@@ -1009,6 +1012,7 @@ static int janet_channel_push(JanetChannel *channel, Janet x, int mode) {
  * queue in the channel. */
 static int janet_channel_pop_with_lock(JanetChannel *channel, Janet *item, int is_choice) {
     JanetChannelPending writer;
+    JANET_VERIF_POINT(janet_chan_is_threaded(channel) ? 1 : 0, &channel->lock);
     if (channel->closed) {
         janet_chan_unlock(channel);
         *item = janet_wrap_nil();
@@ -1031,6 +1035,7 @@ static int janet_channel_pop_with_lock(JanetChannel *channel, Janet *item, int i
         return 0;
     }
     janet_assert(!janet_chan_unpack(channel, item, 0), "bad channel packing");
+    JANET_VERIF_POINT(is_threaded ? 1 : 0, &channel->lock);
     if (!janet_q_pop(&channel->write_pending, &writer, sizeof(writer))) {
         /* Pending writer */
         if (is_threaded) {
@@ -1293,6 +1298,7 @@ JANET_CORE_FN(cfun_channel_close,
     janet_fixarity(argc, 1);
     JanetChannel *channel = janet_getchannel(argv, 0);
     janet_chan_lock(channel);
+    JANET_VERIF_POINT(janet_chan_is_threaded(channel) ? 1 : 0, &channel->lock);
     if (!channel->closed) {
         channel->closed = 1;
         JanetChannelPending writer;
@@ -1580,6 +1586,7 @@ recur:
         status = read(janet_vm.selfpipe[0], &response, sizeof(response));
     } while (status == -1 && errno == EINTR);
     if (status > 0) {
+        JANET_VERIF_POINT(3, NULL);
         if (NULL != response.cb) {
             response.cb(response.msg);
             janet_ev_dec_refcount();
@@ -2166,6 +2173,7 @@ void janet_ev_post_event(JanetVM *vm, JanetCallback cb, JanetEVGenericMessage ms
     memset(&event, 0, sizeof(event));
     event.msg = msg;
     event.cb = cb;
+    JANET_VERIF_POINT(2, vm);
     int fd = vm->selfpipe[1];
     /* handle a bit of back pressure before giving up. */
     int tries = 4;
